@@ -47,7 +47,7 @@ fn main() {
         "replay" => replay::run(replay::Cfg {
             out_dir: arg(&args, "--out").unwrap_or_else(|| "out/replay".into()),
             variants: arg(&args, "--variants").map(|v| v != "default").unwrap_or(true),
-            max_mismatch_traces: arg(&args, "--max-mismatch").and_then(|v| v.parse().ok()).unwrap_or(200),
+            max_mismatch_traces: arg(&args, "--max-mismatch").and_then(|v| v.parse().ok()).unwrap_or(6000),
             sample_every: arg(&args, "--sample-every").and_then(|v| v.parse().ok()).unwrap_or(500),
             want_ex: arg(&args, "--want-ex").map(|v| v.split(',').map(|s| s.to_string()).collect()).unwrap_or_default(),
         }),
